@@ -392,6 +392,7 @@ func init() {
 		Not: "Segment keep-count/merge arithmetic, 255-member boundaries, and the round-trip equality of AS_PATH/AGGREGATOR are value-level and not decided.",
 		Run: func(c *Ctx) {
 			c.ruleRatchets("C14")
+			c.ruleNarrowGuard("E5.narrow-guard", []string{"pkg/packet/bgp"}, 2)
 			c.ruleAS4Placement()
 			c.ruleSendSideCopy()
 			c.ruleRetainedBufferFresh("E2.retained-buffer", []string{"internal/pkg/table", "pkg/packet/bgp", "pkg/server", "pkg/apiutil"}, 4)
